@@ -285,6 +285,10 @@ def xh_part(run: Run):
         for nfc in range(top + 1):
             if m + nfc:
                 jobs.append({"fn": "enumerate_results", "globals": {"FIX_M": m, "FIX_N": nfc}, "timeout": 300 if thorough else 100})
+    nt_ = len(H.tree_cases())
+    for lo in range(0, nt_, 4):
+        jobs.append({"fn": "extract_tree", "globals": {"T_LO": lo, "T_HI": min(nt_, lo + 4)}, "timeout": 600})
+    run.bounds["xh_tree_extraction"] = f"{nt_} expressions (C10's case list, every 2nd, plus composed/duplicate-key ones) x 4 flag combinations (resolve_packages, replace_time_conditions) x an optional earlier extraction with other flags"
     results = xh.run_jobs(run, "vf.harness.C18_extract", jobs)
     for r in results:
         xh.default_verdict(run, r, violation_features=lambda r, rep: {"part": r["fn"]}, bound="keys from the 10-key boundary pool")
@@ -354,7 +358,6 @@ def main(run: Run) -> int:
         "n = m = 0 in the enumeration (the statement does not settle whether the empty product has one element)",
         "order of package_keys / time_condition_keys in an extract",
         "keys with leading zeros or non-ASCII digits",
-        "tree-based extraction with/without resolution is exercised by the C10/C19 glue harnesses, not here",
     ]
     return run.finish(
         "other",
